@@ -259,6 +259,13 @@ func checkFill(c *fillCase) (msg string, harnessErr string, info map[string]int)
 			return "", "bad filling: " + err.Error(), info
 		}
 		hostVal[i] = v
+		if bh[i].kind == holePlainName {
+			for _, s := range skel.Stmts {
+				if l, ok := s.(*gen.Let); ok && l.Name.Name == v {
+					return "", fmt.Sprintf("bad filling: the unquoted name %q is a binding of the program", v), info
+				}
+			}
+		}
 		bh[i].set(baselineFor(i, bh[i].kind))
 		if bh[i].str != nil {
 			// the benign contents are spelled plainly; the hostile ones in the
@@ -572,6 +579,12 @@ func TestC04Fillings(t *testing.T) {
 		classSet := map[string]bool{}
 		kinds := map[holeKind]int{}
 		lastName := ""
+		letNamed := map[string]bool{}
+		for _, s := range skel.Stmts {
+			if l, ok := s.(*gen.Let); ok {
+				letNamed[l.Name.Name] = true
+			}
+		}
 		for _, h := range holes {
 			var v string
 			switch h.kind {
@@ -594,6 +607,12 @@ func TestC04Fillings(t *testing.T) {
 				if sc := swapCase(lastName); sc != lastName && (h.kind == holeQuotedName || plainOK(sc)) {
 					v = sc
 				}
+			}
+			if h.kind == holePlainName && (letNamed[v] || v == "true" || v == "false" || v == "null" || v == "$left" || v == "$right") {
+				// an unquoted name that happens to be a binding of the program (or
+				// a constant) would change what the program means, not just what
+				// it is called
+				v = "zz"
 			}
 			if h.kind == holeQuotedName || h.kind == holePlainName {
 				lastName = v
